@@ -1182,7 +1182,8 @@ impl Typer {
     ) -> tast::Expr {
         let name_display = name.display();
         let (resolved_name, type_env) = super::util::resolve_type_name(genv, &name_display);
-        let ctor = type_env.lookup_constructor(&tast::TastIdent(resolved_name.clone()));
+        let ctor =
+            type_env.lookup_field_syntax_constructor(&tast::TastIdent(resolved_name.clone()));
         let Some((constructor, constr_ty)) = ctor else {
             super::util::push_error(
                 diagnostics,
@@ -2811,7 +2812,8 @@ impl Typer {
                     }
                 }
 
-                let ctor = type_env.lookup_constructor(&tast::TastIdent(type_name.clone()));
+                let ctor =
+                    type_env.lookup_field_syntax_constructor(&tast::TastIdent(type_name.clone()));
                 let Some((constructor, constr_ty)) = ctor else {
                     super::util::push_ice(
                         diagnostics,
